@@ -34,7 +34,7 @@ def plan(tier, seed):
         cases.append({"kind": "equal", "reaction": {"kind": "synth", "seed": int(rng.integers(1 << 30)), "n_final": [3, 3, 3, 4][k % 4],
                                                     "formalism": "helicity" if (k % 4 == 3 and tier == "quick") else ["helicity", "canonical-helicity"][k % 2],
                                                     "max_spin2": [2, 3, 5, 4][k % 4], "massless": k % 3 == 0},
-                      "dynamics": ["bw", "none"][k % 2], "seed": int(rng.integers(1 << 30)), "cost": 15.0})
+                      "dynamics": ["bw", "none"][k % 2], "seed": int(rng.integers(1 << 30)), "cost": 15.0, "warmup": k % 2 == 1})
     # a massless particle listed before a recoil system that contains a massive final-state particle of integer
     # spin >= 1: the massive particle's rotation chain passes a node whose helicity state is the massless one
     for k in range(6 if tier == "quick" else 80):
@@ -137,7 +137,23 @@ def run_case(case, rec, ctx):
                     except Exception as exc:  # noqa: BLE001
                         rec.check(False, "rotation_raises", f"formulate_helicity_rotation(s={two_s}/2, no_zero_spin={flag}) raised {exc!r}", None,
                                   {"hook": "formulate_helicity_rotation", "half_integer": bool(two_s % 2)})
-        rec.sample("spin_range", {"grid": "s = 0, 1/2, ..., 10 x no_zero_spin in (False, True)", "exhaustive_on_grid": True})
+        # call histories in one process: every flag order, repeated calls, and a caller that modifies the list it received
+        # (each call is judged by the contract on create_spin_range; the function must behave as a pure function)
+        hrng = np.random.default_rng([ctx["seed"], 5, 99])
+        for two_s in range(0, 9):
+            for flags in ((True, False), (True, True, False), (False, True, False, False)):
+                for flag in flags:
+                    create_spin_range(two_s / 2, no_zero_spin=flag)
+            got = create_spin_range(two_s / 2)
+            try:
+                got.clear()            # the caller owns the returned list
+            except AttributeError:
+                pass
+            create_spin_range(two_s / 2)
+        for _ in range(200):
+            create_spin_range(int(hrng.integers(0, 9)) / 2, no_zero_spin=bool(hrng.integers(2)))
+        rec.sample("spin_range", {"grid": "s = 0, 1/2, ..., 10 x no_zero_spin in (False, True)", "exhaustive_on_grid": True,
+                                  "histories": "all flag orders per s <= 4, returned list cleared by the caller, 200 random calls"})
         return
     from vmon.core import digest
     from vmon.numeval import ModelEvaluator
@@ -148,6 +164,14 @@ def run_case(case, rec, ctx):
     if reaction is None:
         rec.note("synthetic_reaction_not_constructible")
         return
+    if case.get("warmup"):
+        # process history: an aligned model of another reaction (massless photon: the no_zero_spin path) was formulated
+        # earlier in this process; alignment code must not keep state between models
+        wr = R.load_fixture("jpsi_gamma_pi0_pi0__f0.hel")
+        wcfg = C.default_config()
+        wcfg["align"] = "axisangle"
+        C.build(wr, wcfg)[1].formulate()
+        rec.note("warmup:photon_axisangle_model_formulated_first")
     if len(R.topologies_of(reaction)) != 1 or not R.has_complete_helicities(reaction):
         rec.note("not_single_topology_with_complete_helicities")
         return
